@@ -105,6 +105,38 @@ pub fn count_ladder_programs(tier: crate::shard::Tier) -> Vec<(usize, Vec<Stmt>)
     let mut out = Vec::new();
     for n in sizes {
         let ni = n as i64;
+        // two phases: N objects survive a first collection; then, nine times, fresh values are stored into
+        // the OLD structures (an old array's element, the old chain's tail) and another collection runs
+        // (whatever a collector assumes about old objects must survive writes into them)
+        if n > 0 {
+            let prog = vec![
+                let_("a", array(vec![flt(0.5), string("oud")])),
+                let_("keep", array(vec![int(0), int(0)])),
+                let_("i", int(0)),
+                es(whil(
+                    infix(id("i"), Operator::Lt, int(ni)),
+                    vec![es(op_assign("i", Operator::Add, int(1))), es(assign(id("keep"), array(vec![id("keep"), calln("string", vec![id("i")])])))],
+                )),
+                es(func("f", &["p"], vec![es(array(vec![id("p"), flt(2.5)]))])),
+                es(calln("f", vec![int(1)])),
+                let_("k", int(0)),
+                es(whil(
+                    infix(id("k"), Operator::Lt, int(9)),
+                    vec![
+                        es(op_assign("k", Operator::Add, int(1))),
+                        es(assign(index(id("a"), int(0)), infix(index(id("a"), int(0)), Operator::Add, flt(1.0)))),
+                        es(assign(index(id("a"), int(1)), calln("string", vec![id("k")]))),
+                        es(assign(index(id("keep"), int(1)), array(vec![calln("string", vec![id("k")]), infix(index(id("a"), int(0)), Operator::Multiply, flt(3.0))]))),
+                        es(id("k")),
+                        es(calln("f", vec![id("k")])),
+                        let_("ander", infix(index(id("a"), int(0)), Operator::Multiply, flt(5.0))),
+                        es(calln("print", vec![string("{} {} {} {}"), index(id("a"), int(0)), index(id("a"), int(1)), index(id("keep"), int(1)), id("ander")])),
+                    ],
+                )),
+                es(array(vec![index(id("a"), int(0)), index(id("a"), int(1)), index(id("keep"), int(1)), calln("lengte", vec![id("keep")])])),
+            ];
+            out.push((n, prog));
+        }
         let bodies: Vec<(Vec<Stmt>, Vec<Stmt>)> = vec![
             // (declarations, loop body after the counter increment)
             (vec![let_("x", flt(0.0))], vec![es(assign(id("x"), infix(id("x"), Operator::Add, flt(1.0))))]),
